@@ -15,7 +15,9 @@ LEVEL = "exploration"
 BINDINGS = [("ex", "http://a/"), ("", "urn:x"), ("é", "http://é/#"), ("n", "http://b#"),
             ("q", "http://a/b#c"),
             # a second label for an IRI that is already bound (same namespace declared twice)
-            ("ex2", "http://a/"), ("n2", "http://b#")]
+            ("ex2", "http://a/"), ("n2", "http://b#"),
+            # another prefix for namespaces that rdflib binds by default (dcterms:, xsd:)
+            ("dct", "http://purl.org/dc/terms/"), ("xs", "http://www.w3.org/2001/XMLSchema#")]
 NBASE = 5
 TRIPLES = [
     (I("http://a/x"), I("http://a/y"), L("x")),
@@ -35,6 +37,7 @@ def binding_lists(maxlen: int) -> list:
         for y in range(NBASE):
             if y != x:
                 out.append((x, y, alias))
+    out += [(7,), (8,), (7, 0), (0, 8), (7, 8)]
     return out
 
 
@@ -153,6 +156,7 @@ def run_case(case: dict) -> list[tuple[str, str]]:
             import rdflib  # noqa: PLC0415
 
             g = rdflib.Graph() if cls == "triple" else rdflib.Dataset()
+            list(g.namespaces())  # rdflib binds its defaults lazily: do it before parsing
             g.parse(io.BytesIO(on), format="jelly")
             have = {(p, str(u)) for p, u in g.namespaces()}
             missing = [b for b in user if b not in have]
